@@ -134,14 +134,14 @@ Run* g_run = nullptr;
 
 enum class Beh {
   val, thr, res_val, res_err, res_exc, fut_ready, fut_pending, fut_err, shared_ready, shared_pending, task_make, task_sched,
-  task_contract, task_sched_then, shared_cached_exc, throw_re
+  task_contract, task_sched_then, shared_cached_exc, throw_re, task_sched_stopped
 };
 
 Beh ParseBeh(const std::string& s) {
   static const char* names[] = {"val", "throw", "res_val", "res_err", "res_exc", "fut_ready", "fut_pending", "fut_err",
                                 "shared_ready", "shared_pending", "task_make", "task_sched", "task_contract",
-                                "task_sched_then", "shared_cached_exc", "throw_re"};
-  for (int i = 0; i != 16; ++i) {
+                                "task_sched_then", "shared_cached_exc", "throw_re", "task_sched_stopped"};
+  for (int i = 0; i != 17; ++i) {
     if (s == names[i]) {
       return static_cast<Beh>(i);
     }
@@ -222,6 +222,12 @@ auto Produce(Beh b, int n) {
     if (b == Beh::task_sched) {
       return yaclib::Schedule([n] {
         return HV{n + 8};
+      });
+    }
+    if (b == Beh::task_sched_stopped) {
+      // the head of the returned Task sits on an executor that refuses work: it must be cancelled, not run
+      return yaclib::Schedule(yaclib::MakeInline(yaclib::StopTag{}), [n] {
+        return HV{n + 12};
       });
     }
     if (b == Beh::task_contract) {
